@@ -864,7 +864,15 @@ func runHist(n int, out, replay, knownTags string, par int, stream int64) {
 			defer wg.Done()
 			defer func() { <-sem }()
 			done := make(chan *result, 1)
-			go func() { done <- execCase(cases[i]) }()
+			go func() {
+				res := execCase(cases[i])
+				// a same-second restart that missed its second is an ordinary restart: try again so the
+				// known-finding class is really exercised (the alignment depends on the wall clock)
+				for try := 0; cases[i].Align && res.stats["same-second-hit"] == 0 && try < 3; try++ {
+					res = execCase(cases[i])
+				}
+				done <- res
+			}()
 			select {
 			case r := <-done:
 				results[i] = r
